@@ -297,11 +297,11 @@ pub fn run(tier: Tier, _replay: Option<Value>) -> ! {
     let tmpl_ref = &tmpl;
     std::thread::scope(|scope| {
     let h_bash = scope.spawn(move || {
-        let bspecs: Vec<procs::ProcSpec> = scripts_ref.iter().map(|s| { let mut sp = bash::spec_file(bash::BASH, s, 2_000); sp.no_confirm = true; sp }).collect();
+        let bspecs: Vec<procs::ProcSpec> = scripts_ref.iter().map(|s| { let mut sp = bash::spec_file(bash::BASH, s, 2_000); sp.no_confirm = true; sp.cap_output = 4096; sp }).collect();
         procs::run_many(&bspecs, (bash::procs_par() / 2).max(2))
     });
     let h_exec = scope.spawn(move || {
-        let jcases: Vec<Value> = scripts_ref.iter().enumerate().map(|(i, s)| json!({"s": s, "mode": if i % 2 == 0 { "file" } else { "dash-c" }})).collect();
+        let jcases: Vec<Value> = scripts_ref.iter().enumerate().map(|(i, s)| json!({"s": s, "mode": if i % 2 == 0 { "file" } else { "dash-c" }, "cap": 4096})).collect();
         let cfgx = PoolCfg::new("script").timeout_ms(3_000);
         let bytes: Vec<Vec<u8>> = jcases.iter().map(|c| c.to_string().into_bytes()).collect();
         pool::run(&cfgx, &bytes)
@@ -310,9 +310,10 @@ pub fn run(tier: Tier, _replay: Option<Value>) -> ! {
         let brush = procs::brush_path();
         let mut specs = vec![];
         for c in tmpl_ref.iter() {
-            specs.push(bash::spec_file(&brush, &c.text, 4_000));
-            specs.push(bash::spec_dash_c(&brush, &c.text, 4_000));
-            specs.push(bash::spec_stdin(&brush, &c.text, 4_000));
+            for mut sp in [bash::spec_file(&brush, &c.text, 4_000), bash::spec_dash_c(&brush, &c.text, 4_000), bash::spec_stdin(&brush, &c.text, 4_000)] {
+                sp.cap_output = 65536;
+                specs.push(sp);
+            }
         }
         procs::run_many(&specs, (bash::procs_par() / 2).max(2))
     });
